@@ -126,7 +126,62 @@ func usableNames(p *profile.Profile) bool {
 
 // CheckFormats runs every output form for (p, o) and compares with the reference.
 func CheckFormats(c *harness.Ctx, p *profile.Profile, o Opt) string {
-	profs := map[string]*profile.Profile{"p": p}
+	return checkFormats(c, p, o, map[string]*profile.Profile{"p": p}, []string{"p"})
+}
+
+// splitSources cuts p into two profiles that together hold exactly p's samples. The second one
+// numbers its functions and locations differently and lists its sample types in rotated order,
+// as a profile of the same program written by another producer would.
+func splitSources(r *rand.Rand, p *profile.Profile) (map[string]*profile.Profile, []string) {
+	a, b := p.Copy(), p.Copy()
+	var sa, sb []*profile.Sample
+	for i := range p.Sample {
+		if r.Intn(2) == 0 {
+			sa = append(sa, a.Sample[i])
+		} else {
+			sb = append(sb, b.Sample[i])
+		}
+	}
+	a.Sample, b.Sample = sa, sb
+	for i, f := range b.Function {
+		f.ID = uint64(len(b.Function) - i)
+	}
+	for i, l := range b.Location {
+		l.ID = uint64(len(b.Location) - i)
+	}
+	if n := len(b.SampleType); n > 1 {
+		b.SampleType = append(b.SampleType[1:], b.SampleType[0])
+		for _, s := range b.Sample {
+			s.Value = append(s.Value[1:], s.Value[0])
+		}
+	}
+	if r.Intn(2) == 0 {
+		return map[string]*profile.Profile{"p1": a, "p2": b}, []string{"p1", "p2"}
+	}
+	return map[string]*profile.Profile{"p1": a, "p2": b}, []string{"p2", "p1"}
+}
+
+// distinctBinaries: no two mappings that merging would treat as one binary (same build id or file)
+func distinctBinaries(p *profile.Profile) bool {
+	seen := map[string]bool{}
+	for _, m := range p.Mapping {
+		for _, k := range []string{"id:" + m.BuildID, "file:" + m.File} {
+			if k == "id:" || k == "file:" {
+				continue
+			}
+			if seen[k] {
+				return false
+			}
+			seen[k] = true
+		}
+	}
+	return true
+}
+
+// checkFormats compares every output form of the sources srcs (which together hold exactly the
+// samples of p) with the reference report of p.
+func checkFormats(c *harness.Ctx, p *profile.Profile, o Opt, profs map[string]*profile.Profile, srcs []string) string {
+	merged := len(srcs) > 1
 	rep := ref.Report(p, o.RefOpts())
 	wantRows := rep.Rows()
 	wantEdges := rep.EdgeRows()
@@ -146,7 +201,7 @@ func CheckFormats(c *harness.Ctx, p *profile.Profile, o Opt) string {
 			}
 			ss[k] = v
 		}
-		out, ui, res := drv.Report(profs, []string{"p"}, bb, ss, nil, nil, nil)
+		out, ui, res := drv.Report(profs, srcs, bb, ss, nil, nil, nil)
 		if res.Panic != "" {
 			return "", "panic: " + res.Panic
 		}
@@ -168,7 +223,16 @@ func CheckFormats(c *harness.Ctx, p *profile.Profile, o Opt) string {
 	if d := diffRows(wantRows, rowsOfTop(rows)); d != "" {
 		return "-top " + d + "\n" + out
 	}
-	if !h.Found || h.Total != rep.Total {
+	// (merged sources: equal stacks of opposite sign cancel before the total is taken)
+	cancels := false
+	if merged {
+		for _, smp := range p.Sample {
+			if smp.Value[o.Index] < 0 {
+				cancels = true
+			}
+		}
+	}
+	if !cancels && (!h.Found || h.Total != rep.Total) {
 		return fmt.Sprintf("-top total %d, reference total (sum of |values|%s) %d\n%s", h.Total, map[bool]string{true: " / sum of counts", false: ""}[o.Mean], rep.Total, out)
 	}
 	var sumFlat int64
@@ -272,7 +336,7 @@ func CheckFormats(c *harness.Ctx, p *profile.Profile, o Opt) string {
 		return "-dot " + d + "\n" + out
 	}
 	// ---- traces (per sample; a single source is reported unmerged)
-	if !o.Mean {
+	if !o.Mean && !merged {
 		out, e = run("traces", nil)
 		if e != "" {
 			return "-traces failed: " + e
@@ -332,8 +396,11 @@ func CheckFormats(c *harness.Ctx, p *profile.Profile, o Opt) string {
 		return fmt.Sprintf("-topproto entries (name, file, line:col, address, flat, cum)\n  reference: %v\n  reported : %v", wantTP, gotTP)
 	}
 	// ---- callgrind: always at address granularity, one cost line per entry, one call record per edge
-	if msg := checkCallgrind(c, p, o, run); msg != "" {
-		return msg
+	// (not for merged sources: merging may re-base addresses of mappings it unifies, C03)
+	if !merged {
+		if msg := checkCallgrind(c, p, o, run); msg != "" {
+			return msg
+		}
 	}
 	// ---- call tree (dot): one node per distinct path
 	if o.CallTree {
@@ -546,6 +613,14 @@ func run(c *harness.Ctx) harness.Result {
 		if msg == "" && web != nil {
 			msg = CheckWebTop(c, web, p, o)
 		}
+		if msg == "" && k == 0 && c.Index%3 == 0 && len(o.TagRoot)+len(o.TagLeaf) == 0 && !o.Mean && o.Gran != "addresses" && distinctBinaries(p) { // (the mean divisor is the first column of whichever source is listed first)
+			// the same samples arriving as two sources
+			profs, srcs := splitSources(r, p)
+			c.Stat("split_source_points", 1)
+			if msg = checkFormats(c, p, o, profs, srcs); msg != "" {
+				msg = "given as two sources " + fmt.Sprint(srcs) + " (second one with its own ids and rotated sample types): " + msg
+			}
+		}
 		if msg != "" {
 			res.Verdict = harness.Violated
 			res.Detail = fmt.Sprintf("options: %s\n%s\nprofile:\n%s", o, harness.Trunc(msg, 3000), harness.Trunc(p.String(), 3000))
@@ -560,7 +635,7 @@ func init() {
 	harness.Register(&harness.Check{
 		ID:    "C04",
 		Level: "exploration",
-		Rule: "report-class profiles (recursion, inlined multi-line locations shared between samples, empty stacks, unsymbolized and unmapped frames, negative values, 1-3 count-typed sample types, string and unitless numeric labels) x 3 random points of {granularity 5} x noinlines x showcolumns x sample_index x mean x tagroot/tagleaf; every point rendered through the real driver as -top, -tree, -peek=., -dot, -traces, -topproto, -callgrind (decoded with pprof's name and position compression: one cost line per address-level entry with object, file, function, address, line and self cost; one call record per edge with its inclusive cost) and -dot -call_tree (trim=false), and for every fourth profile also through the web UI's /top view and parsed independently; " +
+		Rule: "report-class profiles (recursion, inlined multi-line locations shared between samples, empty stacks, unsymbolized and unmapped frames, negative values, 1-3 count-typed sample types, string and unitless numeric labels) x 3 random points of {granularity 5} x noinlines x showcolumns x sample_index x mean x tagroot/tagleaf; every point rendered through the real driver as -top, -tree, -peek=., -dot, -traces, -topproto, -callgrind (decoded with pprof's name and position compression: one cost line per address-level entry with object, file, function, address, line and self cost; one call record per edge with its inclusive cost) and -dot -call_tree (trim=false), and for every fourth profile also through the web UI's /top view and parsed independently; every third profile is additionally cut into two sources (the second with its own function/location ids and rotated sample types) whose combined report must be the report of the whole; " +
 			"oracle: reference report over the frames view (flat = leaf sum, cum = once per sample, edge = adjacency once per sample, total = sum |v|, mean quotients), compared as multisets of (name, flat, cum) and (caller, callee, weight); legend 'accounting for' = sum of flat shown. non-trivial = at least 2 samples; distinct = profile shape signature",
 		Assumptions:   []string{"count-typed values so printed numbers are exact integers", "entries are matched by printable name (names with leading/trailing/double blanks or newlines are left to C18)", "a single source is not merged by pprof, so -traces is compared sample by sample"},
 		Parts:         []harness.Part{{Name: "formats", Quick: 4000, Thor: 150000, Run: run}},
